@@ -144,8 +144,8 @@ func c15handler(c *Ctx) {
 		var chain []layer
 		cur := h
 		var cdesc []string
-		nDer := r.Intn(5)
-		if r.P(35) {
+		nDer := r.Intn(9) // chains up to 8 steps: slice growth of the derivation list happens at 1, 2, 4, 8
+		if r.P(30) {
 			nDer = 0
 		}
 		kc := 0
@@ -169,6 +169,19 @@ func c15handler(c *Ctx) {
 				chain = append(chain, layer{kvs: kvs})
 				cdesc = append(cdesc, fmt.Sprintf("WithAttrs(%d)", n))
 			}
+		}
+		// siblings: two handlers derived from the same parent; the record goes through the FIRST one after
+		// the second was derived (they must not share a slot of the derivation list)
+		if nDer > 0 && r.P(40) {
+			kc++
+			a1, kv1 := c15attr(r, fmt.Sprintf("sibA%d~", kc), 3)
+			a2, _ := c15attr(r, fmt.Sprintf("sibB%d~", kc), 3)
+			first := cur.WithAttrs([]stdslog.Attr{a1})
+			_ = cur.WithAttrs([]stdslog.Attr{a2}) // the later sibling
+			cur = first
+			chain = append(chain, layer{kvs: []gen.KV{kv1}})
+			cdesc = append(cdesc, "WithAttrs(1) [first of two siblings]")
+			c.R.Add("sibling_derivations", 1)
 		}
 		tail := len(chain) > 0 && chain[len(chain)-1].group != ""
 		// the record
@@ -404,7 +417,9 @@ func c15bridge(c *Ctx) {
 		lg.SetWriter(w).SetErrorWriter(w)
 		setFormat(lg, f)
 		lg.SetLevel(L)
-		is.SetDebugMode(false)
+		debugMode := r.P(30) // the sticky process-wide debug mode additionally admits Debug
+		is.SetDebugMode(debugMode)
+		defer is.SetDebugMode(false)
 		var under slog.Logger = lgL
 		if r.Bool() {
 			under = lg
@@ -438,9 +453,9 @@ func c15bridge(c *Ctx) {
 			formatted += "\n" // the std logger terminates the line
 		}
 		wantMsg := formatted[:len(formatted)-1] // "minus its trailing newline"
-		adm := admit(L, sev, false, treat)
+		adm := admit(L, sev, debugMode, treat)
 		evs := log.Writes("W")
-		desc := map[string]any{"logger_level": L.String(), "bridge_severity": sev.String(), "format": f.String(), "call": []string{"Print", "Printf", "Println", "Output"}[how], "msg": q(clip(msg, 200))}
+		desc := map[string]any{"debug_mode": debugMode, "logger_level": L.String(), "bridge_severity": sev.String(), "format": f.String(), "call": []string{"Print", "Printf", "Println", "Output"}[how], "msg": q(clip(msg, 200))}
 		c.R.Add("bridge_calls", 1)
 		want := 0
 		if adm {
@@ -454,7 +469,7 @@ func c15bridge(c *Ctx) {
 			c.R.Violation(idx, "bridge-gate", "C15/bridge-gate/"+kind, fmt.Sprintf("logger level %v, bridge severity %v: %d record(s), the logger's gate says %v", L, sev, len(evs), adm), desc)
 			return
 		}
-		c.R.NonTrivial(int(L), int(sev), how, msg)
+		c.R.NonTrivial(int(L), int(sev), how, msg, debugMode)
 		if !adm {
 			c.R.Add("bridge_silent", 1)
 			return
